@@ -43,6 +43,13 @@ def run(ctx):
     if ctx.tier == 'thorough':
         import glob, os
         stock = sorted(glob.glob(os.path.join(gen.REPO, 'schema', 'FIX*.xml'))) + sorted(glob.glob(os.path.join(gen.REPO, 'test', 'FIX44*.xml')))
+        batch = []
+        for path in stock:
+            rel = os.path.relpath(path, gen.REPO)
+            if rel in ('schema/FIXT11.xml', 'schema/FIX42UTEST.xml', 'schema/FIX42PERF.xml'):
+                continue
+            batch += [gen.stock_target(rel, True), gen.stock_target(rel, False)]
+        gen.generate(batch)          # one scratch build for all of them
         for path in stock:
             rel = os.path.relpath(path, gen.REPO)
             if rel in ('schema/FIXT11.xml', 'schema/FIX42UTEST.xml', 'schema/FIX42PERF.xml'):
